@@ -9,6 +9,7 @@ import (
 	"strings"
 
 	"github.com/ogen-go/ogen"
+	"github.com/ogen-go/ogen/openapi"
 	"github.com/ogen-go/ogen/openapi/parser"
 
 	"verifharness/internal/gc"
@@ -350,5 +351,207 @@ func c07Recursion(r *lp.Run, rng *lp.Rand) {
 		}
 		f := lp.PropFail{Property: "C07", What: "a schema cycle does not yield a recursive type that compiles", Input: j.input(), Observed: truncN(m, 600), Expected: "the generated package type-checks"}
 		r.Fail(f)
+	}
+}
+
+// ---- the dereferenced spec parses back to an equivalent API ----
+
+func parseAPIExt(root M, files map[string][]byte) (*openapi.API, error) {
+	data, _ := json.Marshal(root)
+	var api *openapi.API
+	var perr error
+	res := lp.Guard(func() string {
+		s, err := ogen.Parse(data)
+		if err != nil {
+			perr = err
+			return ""
+		}
+		settings := parser.Settings{}
+		if files != nil {
+			settings.External = mapResolver(files)
+		}
+		api, perr = parser.Parse(s, settings)
+		return ""
+	})
+	if res == "panic" {
+		return nil, fmt.Errorf("panic")
+	}
+	return api, perr
+}
+
+// twoFiles: a.json holds the components as they are, b.json the same names with the contents of the first two
+// components of every kind swapped; the root refers to a.json and b.json alternately
+func twoFiles(spec M) (M, map[string][]byte) {
+	spec = cloneJSON(spec).(M)
+	comps, _ := spec["components"].(M)
+	swapped := cloneJSON(comps).(M)
+	for _, m := range swapped {
+		km := m.(M)
+		var names []string
+		for n := range km {
+			names = append(names, n)
+		}
+		sortStrings(names)
+		if len(names) >= 2 {
+			km[names[0]], km[names[1]] = km[names[1]], km[names[0]]
+		}
+	}
+	n := 0
+	root := M{}
+	for k, v := range spec {
+		if k != "components" {
+			root[k] = rewriteRefs(v, func(s string) string {
+				if strings.HasPrefix(s, "#/components/") {
+					n++
+					if n%2 == 0 {
+						return "b.json" + s
+					}
+					return "a.json" + s
+				}
+				return s
+			})
+		}
+	}
+	a, _ := json.Marshal(M{"components": comps})
+	b, _ := json.Marshal(M{"components": swapped})
+	return root, map[string][]byte{"a.json": a, "b.json": b}
+}
+
+func c07Expand(r *lp.Run, rng *lp.Rand) {
+	n := r.N(120, 2500)
+	for i := 0; i < n; i++ {
+		spec := genRefSpec(rng)
+		type variant struct {
+			name  string
+			root  M
+			files map[string][]byte
+		}
+		vs := []variant{{"single file", spec, nil}}
+		{
+			root, ext := externalise(spec, rng.Bool())
+			eb, _ := json.Marshal(ext)
+			vs = append(vs, variant{"components in one external file", root, map[string][]byte{"ext.json": eb}})
+		}
+		{
+			root, files := twoFiles(spec)
+			vs = append(vs, variant{"components in two external files with the same names and different contents", root, files})
+		}
+		for _, v := range vs {
+			api, err := parseAPIExt(v.root, v.files)
+			if err != nil {
+				r.Count(fmt.Sprintf("expand %d %s", i, v.name), "expand:"+v.name+":parse-refused", false)
+				continue
+			}
+			want := projectAPI(api)
+			var expanded []byte
+			var eerr error
+			res := lp.Guard(func() string {
+				sp, err := parser.Expand(api)
+				if err != nil {
+					eerr = err
+					return ""
+				}
+				expanded, eerr = json.Marshal(sp)
+				return ""
+			})
+			rb, _ := json.Marshal(v.root)
+			in := map[string]any{"variant": v.name, "root": json.RawMessage(rb)}
+			for k, f := range v.files {
+				in[k] = json.RawMessage(f)
+			}
+			r.PropCheck()
+			if res == "panic" {
+				r.Count(fmt.Sprintf("expand %d %s", i, v.name), "expand:"+v.name+":panic", true)
+				r.Fail(lp.PropFail{Property: "C07", What: "emitting the dereferenced spec panics", Input: in, Observed: "panic", Expected: "a spec or an error"})
+				continue
+			}
+			if eerr != nil {
+				r.Count(fmt.Sprintf("expand %d %s", i, v.name), "expand:"+v.name+":refused", true)
+				continue // a located refusal (e.g. a name conflict between files) is an allowed outcome
+			}
+			var got string
+			{
+				var perr error
+				res := lp.Guard(func() string {
+					s, err := ogen.Parse(expanded)
+					if err != nil {
+						perr = err
+						return ""
+					}
+					a2, err := parser.Parse(s, parser.Settings{})
+					if err != nil {
+						perr = err
+						return ""
+					}
+					got = projectAPI(a2)
+					return ""
+				})
+				if res == "panic" {
+					perr = fmt.Errorf("panic")
+				}
+				err = perr
+			}
+			in["dereferenced"] = json.RawMessage(expanded)
+			r.Count(fmt.Sprintf("expand %d %s", i, v.name), "expand:"+v.name+":emitted", true)
+			switch {
+			case err != nil:
+				r.Fail(lp.PropFail{Property: "C07", What: "the dereferenced spec ogen emits does not parse", Input: in, Observed: err.Error(), Expected: "parses back to an equivalent API"})
+			case got != want:
+				la, lb := strings.Split(want, "\n"), strings.Split(got, "\n")
+				d := "operation count differs"
+				for k := range la {
+					if k < len(lb) && la[k] != lb[k] {
+						d = "original: " + la[k] + "  ||  parsed back: " + lb[k]
+						break
+					}
+				}
+				r.Fail(lp.PropFail{Property: "C07", What: "the dereferenced spec parses back to a different API", Input: in, Observed: d, Expected: "identical parsed API"})
+			}
+		}
+	}
+}
+
+// ---- acyclic composition graphs (diamonds: a component referenced directly and again through a sibling) must
+// never be refused as infinite recursion ----
+
+func c07CompositionDAGs(r *lp.Run, rng *lp.Rand) {
+	kw := []string{"oneOf", "anyOf", "allOf"}
+	n := r.N(150, 3000)
+	for i := 0; i < n; i++ {
+		k := 3 + rng.Intn(3)
+		schemas := M{}
+		// leaves are objects with distinct required properties (so that oneOf variants can be told apart)
+		schemas[fmt.Sprintf("N%d", k-1)] = M{"type": "object", "required": []any{"base"}, "properties": M{"base": M{"type": "string"}}}
+		for j := k - 2; j >= 0; j-- {
+			// refers only to higher-numbered schemas: acyclic by construction; several members may share a target
+			var members []any
+			cnt := 1 + rng.Intn(3)
+			for q := 0; q < cnt; q++ {
+				t := j + 1 + rng.Intn(k-1-j)
+				if rng.Chance(25) {
+					members = append(members, M{lp.Pick(rng, kw): []any{M{"$ref": fmt.Sprintf("#/components/schemas/N%d", t)}}})
+				} else {
+					members = append(members, M{"$ref": fmt.Sprintf("#/components/schemas/N%d", t)})
+				}
+			}
+			key := lp.Pick(rng, kw)
+			if key == "allOf" {
+				members = append(members, M{"type": "object", "properties": M{fmt.Sprintf("p%d", j): M{"type": "integer"}}})
+			}
+			schemas[fmt.Sprintf("N%d", j)] = M{key: members}
+		}
+		doc := M{"openapi": "3.0.3", "info": M{"title": "t", "version": "1"},
+			"paths":      M{"/a": M{"post": M{"operationId": "a", "requestBody": M{"content": M{"application/json": M{"schema": M{"$ref": "#/components/schemas/N0"}}}}, "responses": M{"200": M{"description": "ok"}}}}},
+			"components": M{"schemas": schemas}}
+		b, _ := json.Marshal(doc)
+		o := runGeneratorBatch([][]byte{b}, 1)[0]
+		r.Count(fmt.Sprintf("dag %d", i), "composition-dag:"+o.kind, true)
+		r.PropCheck()
+		if strings.Contains(o.msg, "infinite recursion") {
+			r.Fail(lp.PropFail{Property: "C07", What: "an acyclic composition (a component reached directly and again through a sibling) is refused as infinite recursion", Input: map[string]any{"document": json.RawMessage(b)}, Observed: trunc200(o.msg), Expected: "types, or a diagnostic about something else"})
+		}
+		if o.kind == "panic" || o.kind == "fatal" || o.kind == "timeout" {
+			r.Fail(lp.PropFail{Property: "C07", What: "an acyclic composition makes generation fail without a diagnostic (" + o.kind + ")", Input: map[string]any{"document": json.RawMessage(b)}, Observed: trunc200(o.msg), Expected: "types or a diagnostic"})
+		}
 	}
 }
